@@ -1171,6 +1171,7 @@ OPNMIDI_EXPORT int opn2_playFormat(OPN2_MIDIPlayer *device, int sampleCount,
     bool hasSkipped = setup.tick_skip_samples_delay > 0;
 
     while(left > 0)
+    VERIF_LOOP(opnmidi_play_period)
     {
         const double eat_delay = setup.delay < setup.maxdelay ? setup.delay : setup.maxdelay;
         if(hasSkipped)
